@@ -108,7 +108,7 @@ class HybridModel:
         td = sum(self.durs.values())
         sc = {x: self.aw * (self.counts[x] / tc if tc else 0.0) + self.dw * (self.durs[x] / td if td else 0.0) for x in self.vals}
         m = min(sc.values())
-        return [x for x in sc if sc[x] <= m + 1e-12]
+        return [x for x in sc if sc[x] <= m + 1e-15]  # (a tie is a tie: equal up to the last bits of the same arithmetic)
 
     def put(self, k, v, victim=None, duration=0.0):
         if victim is not None:
@@ -208,6 +208,13 @@ def gen_case(tape, tier):
                 ops.append(["get", tape.choose(i, "which")])
         return {"part": "L", "config": {"cls": cls, "max_size": n, "shared": bool(tape.coin(0.3, "shared")), "cloudpickle": False,
                                         "access_weight": 0.5, "duration_weight": 0.5}, "ops": ops}
+    if tape.coin(0.0008 if tier == "quick" else 0.0003, "huge-value"):
+        # a value of tens of megabytes (a fitted model, a big table) replaces a small one under the same key
+        return {"part": "A", "config": {"cls": "disk", "max_size": tape.pick([None, 2], "disk-max"), "shared": bool(tape.coin(0.5, "shared")),
+                                        "cloudpickle": bool(tape.coin(0.5, "cp")), "with_lru": True, "lru_size": 2},
+                "ops": [{"op": "put", "key": "a", "value": "v1", "duration": 1, "ctime_step": 1},
+                        {"op": "put", "key": "a", "value": "<huge>", "duration": 1, "ctime_step": 1},
+                        {"op": "get", "key": "a", "default": False}, {"op": "in", "key": "a"}, {"op": "len"}]}
     part = "A" if tape.coin(0.6, "part") else "B"
     if part == "A":
         cls = tape.pick(["lru", "lru", "hybrid", "hybrid", "simple", "disk", "disk"], "cls")
@@ -228,6 +235,7 @@ def gen_case(tape, tier):
         # policy stress: long put/get histories without clear and with spread-out durations, so that several evictions
         # happen in one history and the access-count and duration terms of the hybrid score pull in different directions
         stress = cls in ("hybrid", "lru") and bool(tape.coin(0.5, "policy-stress"))
+        spread = stress and bool(tape.coin(0.3, "duration-spread"))  # durations from nanoseconds to hours in one cache
         for _ in range(8 + tape.choose(9, "nops") if stress else 2 + tape.choose(11, "nops")):
             choices = ["put", "put", "put", "get", "get", "in", "len", "clear"]
             if stress:
@@ -240,7 +248,8 @@ def gen_case(tape, tier):
                 ops.append({"op": "put", "key": tape.pick(KEYS, "key"),
                             "value": None if tape.coin(0.15, "none-value") else ("<unstorable>" if tape.coin(0.06, "unstorable") else
                                                                                       (f"<bytes>{nv}" if tape.coin(0.08, "bytes-value") else f"v{nv}")),
-                            "duration": tape.pick([1, 2, 3, 5, 8] if stress else [0, 0, 1, 1, 2, 5], "duration"),
+                            "duration": tape.pick(([5000, 3e-9, 1e-9, 2e-9, 1.0] if spread else [1, 2, 3, 5, 8]) if stress
+                                                  else [0, 0, 1, 1, 2, 5], "duration"),
                             "ctime_step": tape.pick([0, 1, 1, 2, -1], "ctime-step")})
             elif k == "get":
                 ops.append({"op": k, "key": tape.pick(KEYS, "key"), "default": bool(tape.coin(0.4, "with-default"))})
@@ -521,6 +530,22 @@ def run_A(case, tape):
     return viol, probes, sim
 
 
+class _Huge:
+    """A value whose pickle is tens of megabytes; compares by size and a fingerprint, prints small."""
+
+    def __init__(self, n):
+        self.data = b"\x07" * n
+
+    def __eq__(self, other):
+        return isinstance(other, _Huge) and len(other.data) == len(self.data)
+
+    def __hash__(self):
+        return hash(len(self.data))
+
+    def __repr__(self):
+        return f"<huge value of {len(self.data)} bytes>"
+
+
 def _bytes_value(n):
     """Values of type bytes, among them ones that look like pickles (they are what a caller caches who serialises himself)."""
     import pickle
@@ -530,6 +555,10 @@ def _bytes_value(n):
 
 def _put(c, m, op, cfg, sim, now, before, V, probes):
     k, v = op["key"], op["value"]
+    if v == "<huge>":
+        op = dict(op, value=_Huge(65 << 20))
+        v = op["value"]
+        probes["huge_value"] = probes.get("huge_value", 0) + 1
     if isinstance(v, str) and v.startswith("<bytes>"):
         op = dict(op, value=_bytes_value(int(v[7:])))
         v = op["value"]
